@@ -74,6 +74,8 @@ type ShardReport struct {
 	Evaluations int               `json:"evaluations"`
 	NonTrivial  []uint64          `json:"nontrivial_hashes"`
 	States      []uint64          `json:"state_hashes"`
+	Schedules   []uint64          `json:"schedule_hashes"`
+	schedSet    map[uint64]bool
 	Samples     []json.RawMessage `json:"samples"`
 	Faults      map[string]int    `json:"faults_fired"`
 	Probes      map[string]int    `json:"probes"`
@@ -98,6 +100,15 @@ func newShardReport(prop, engine string, shard int, tier string, seed uint64) *S
 }
 
 func (r *ShardReport) absorb(st *Stats) {
+	if r.schedSet == nil {
+		r.schedSet = map[uint64]bool{}
+	}
+	for h := range st.Sched {
+		if !r.schedSet[h] && len(r.Schedules) < 2000000 {
+			r.schedSet[h] = true
+			r.Schedules = append(r.Schedules, h)
+		}
+	}
 	r.Steps += st.Steps
 	r.Ops += st.Ops
 	r.OracleEvals += st.OracleEvals
